@@ -85,6 +85,34 @@ def locality_instances(hyps, goal):
 prelude.INSTANCE_GENERATORS.append(locality_instances)
 
 
+def fn_extensionality_instances(hyps, goal):
+    """a bytes function stored on a construct (decode / encode callback) is a function of the CONTENT of the bytes object it
+    is given: applied to two views of equal length that agree byte for byte it returns equal results (same length, same
+    array).  Instantiated for every pair of applications of the same function that differ in the view."""
+    apps = [a for a in _find_apps(list(hyps) + [goal], 'fn_bytes_len') if not any(v.endswith('!|') or v.endswith('!') for v in a.free_vars())]
+    apps += [a for a in _find_apps(list(hyps) + [goal], 'fn_bytes_arr') if not any(v.endswith('!|') or v.endswith('!') for v in a.free_vars())]
+    views = {}
+    for a in apps:
+        views[tuple(z.smt() for z in a.args)] = a.args
+    vs = list(views.values())
+    out = []
+    i = t.var('fx!', t.INT)
+    for x in range(len(vs)):
+        for y in range(x + 1, len(vs)):
+            (f1, a1, o1, n1), (f2, a2, o2, n2) = vs[x], vs[y]
+            if f1.smt() != f2.smt():
+                continue
+            agree = t.forall([i], t.implies(t.and_(t.le(o1, i), t.lt(i, t.add(o1, n1))), t.eq(t.select(a1, i), t.select(a2, t.add(o2, t.sub(i, o1))))),
+                             pats=[[t.select(a1, i)]])
+            out.append(t.implies(t.and_(t.eq(n1, n2), agree),
+                                 t.and_(t.eq(t.app('fn_bytes_len', t.INT, f1, a1, o1, n1), t.app('fn_bytes_len', t.INT, f2, a2, o2, n2)),
+                                        t.eq(t.app('fn_bytes_arr', t.ARR, f1, a1, o1, n1), t.app('fn_bytes_arr', t.ARR, f2, a2, o2, n2)))))
+    return out
+
+
+prelude.INSTANCE_GENERATORS.append(fn_extensionality_instances)
+
+
 class VSubList(Value):
     """self.subcons: a list of sub-constructs of unknown length"""
     kind = 'sublist'
@@ -699,9 +727,39 @@ class ConstructInterface(Interface):
             out.extend(eng.raise_(b2, 'LookupError', origin='unknown codec'))
         return out
 
+    ENTRY = ('parse', 'parse_stream', 'parse_file', 'build', 'build_stream', 'build_file', 'sizeof')
+
+    def abstract_self_call(self, eng, qual, selfv, args, kws, st, node):
+        """Under the public entry points `self` is an arbitrary construct: its abstract hooks _parse/_build/_sizeof are the
+        interface functions of self (exactly how every sub-construct is known everywhere else)."""
+        if not getattr(self, 'self_as_sub', False) or not isinstance(selfv, VObj) or selfv.ident is None:
+            return None
+        m = qual.split(':', 1)[1]
+        sc = VSub(selfv.ident, 'self')
+        if m in ('Construct._parse', 'Construct._parsereport'):
+            # _parsereport = _parse followed by the optional `parsed` hook (a user callback, None unless attached with *)
+            st.ghost.setdefault('first_sub_path', args[2] if len(args) > 2 else None)
+            return self.sub_parse(eng, sc, args[0], args[1], args[2], st)
+        if m == 'Construct._build':
+            st.ghost.setdefault('first_sub_path', args[3] if len(args) > 3 else None)
+            return self.sub_build(eng, sc, args[0], args[1], args[2], args[3], st)
+        if m == 'Construct._sizeof':
+            st.ghost.setdefault('first_sub_path', args[1] if len(args) > 1 else None)
+            return self.sub_sizeof(eng, sc, args[0], args[1], st)
+        return None
+
     def star_call(self, eng, node, st):
-        """calls with ** : Container(**contextkw), sub.parse(data, **context), sub.build(obj, **context)"""
+        """calls with ** : Container(**contextkw), sub.parse(data, **context), sub.build(obj, **context),
+        self.parse_stream(..., **contextkw) and friends inside the public entry points"""
         f = node.func
+        if isinstance(f, ast.Attribute) and f.attr in self.ENTRY and len(node.keywords) == 1 and node.keywords[0].arg is None and isinstance(f.value, ast.Name) and f.value.id == 'self':
+            def k0(st1, vs):
+                recv, args, kwv = vs[0], vs[1:-1], vs[-1]
+                if isinstance(recv, VObj):
+                    q = self.src.resolve_method(recv.cls, f.attr)
+                    return self.models.call_contract(eng, q, recv, list(args), {'**': kwv}, st1, node)
+                raise OutOfReach('entry point with ** on %r' % (recv,))
+            return eng.bind(eng.ev_list([f.value] + list(node.args) + [node.keywords[0].value], st), k0)
         if isinstance(f, ast.Name) and f.id == 'Container' and not node.args and len(node.keywords) == 1 and node.keywords[0].arg is None:
             # Container(**kw): a fresh container holding the keyword arguments of the public call
             def k(st1, kwv):
